@@ -65,7 +65,7 @@ CHECKS = {
              "Oracle: returns within deadline + slack; nil error only if the node sent a success reply for the call's request; never nil when "
              "no request was confirmed; healthy node => nil; no panic; goroutines return to the baseline. non-trivial = any non-prompt behaviour",
         assumptions=["simnode's per-request scripting is the trusted fault injector", "statuses that gocbcore retries (TMPFAIL, BUSY) surface as a timeout at the deadline, which is an error as required"],
-        units=[rapid("TestC20_AsyncOp", 400, 20000, 8, 16), rapid("TestC20_Wire", 480, 20000, 16, 16), plain("TestC20_Fixed"), plain("TestC20_CheckpointRead")],
+        units=[rapid("TestC20_AsyncOp", 400, 20000, 8, 16), rapid("TestC20_Wire", 480, 20000, 16, 16), plain("TestC20_Fixed"), plain("TestC20_CheckpointRead"), rapid("TestC20_SeqNosComplete", 60, 3000, 2, 8)],
     ),
     "C11": dict(
         level="exploration",
